@@ -314,11 +314,11 @@ def translate_tables():
             m2 = re.fullmatch(r"EndStreamAction::(\w+)(?:\((\w+)\))?", pat)
             if not m2 or m2.group(1) not in ACTIONS:
                 raise R.Unrecognised("%s end_stream arm %r" % (fname, pat))
-            rows[m2.group(1)] = effects(b, "%s end_stream arm %s" % (fname, pat))
+            rows[m2.group(1)] = tree_coq(R.parse_block(b), "%s end_stream arm %s" % (fname, pat))
         if sorted(rows) != sorted(ACTIONS):
             fails.append("%s: end_stream arms are %s" % (fname, sorted(rows)))
-        lines.append("Definition gen_end_arm_%s (a : atag) : list eff :=\n  match a with\n%s\n  end." % (proto, "\n".join(
-            "  | T%s => [%s]" % (a, "; ".join(rows.get(a, []))) for a in ACTIONS)))
+        lines.append("Definition gen_end_arm_%s (a : atag) : dtree :=\n  match a with\n%s\n  end." % (proto, "\n".join(
+            "  | T%s => %s" % (a, rows.get(a, "Leaf []")) for a in ACTIONS)))
 
     # answers.rs: what the two helpers do to the stream
     ans = R.strip(open(os.path.join(MUX, "answers.rs")).read())
@@ -355,7 +355,7 @@ def translate_tables():
     h1 = R.strip(open(os.path.join(MUX, "h1.rs")).read())
     wb, _ = R.fn_body(h1, "writable")
     lines.append("Definition gen_h1_close_after_close : bool := %s." % (
-        "true" if (re.search(r"let\s+ended_by_close\s*=\s*!stream\.context\.keep_alive_backend\s*&&\s*stream\.back\.expects\s*>\s*0\s*;", wb)
+        "true" if (re.search(r"let\s+ended_by_close\s*=\s*!stream\.context\.keep_alive_backend\s*&&\s*stream\.back\.expects\s*>\s*0\s*&&\s*stream\.context\.method\s*!=\s*Some\([\w:]*Method::Head\)\s*;", wb)
                    and re.search(r"if\s+stream\.context\.keep_alive_frontend\s*&&\s*!ended_by_close\s*\{", wb)) else "false"))
     lines.append("Definition gen_tables : tables :=\n  mkT gen_esd gen_connect gen_redirect_fallback gen_front_timeout gen_back_timeout\n"
                  "      (fun h2 => if h2 then gen_end_arm_h2 else gen_end_arm_h1) gen_default_answer_effs gen_force_effs gen_known_codes\n"
@@ -578,7 +578,7 @@ def bb_scenarios(tier, rng):
           ("nohost", 0), ("nobackend", 0), ("redirect", 0), ("slow_client", 0),
           ("chunked_close_at", 60), ("chunked_close_at", len(HEAD_CH + CHUNKED)),
           ("close_delim_at", 50), ("close_delim_at", len(HEAD_CD + BODY)), ("keepalive_close", 0),
-          ("cl_close_at", 30), ("cl_close_at", 66), ("cl_close_at", len(HEAD_CLC + BODY))]
+          ("cl_close_at", 30), ("cl_close_at", 66), ("cl_close_at", len(HEAD_CLC + BODY)), ("cl_close_twice", 0)]
     if tier != "quick":
         s += [("close_at", k) for k in range(0, len(HEAD_CL + BODY) + 1)]
         s += [("reset_at", k) for k in range(0, len(HEAD_CL + BODY), 3)]
@@ -630,7 +630,7 @@ def extra_stage(tier, rng, work):
     # predictions
     flat, index = [], []
     for kind, k in scns:
-        if kind == "keepalive_close":
+        if kind in ("keepalive_close", "cl_close_twice"):
             index.append(None)
             continue
         sch, blen = predict_inputs(kind, k)
@@ -656,6 +656,13 @@ def extra_stage(tier, rng, work):
                     bad.append((i, "bb-hang", "%s %d: no answer and no close within the deadline" % (kind, k)))
                 if r.get("extra"):
                     bad.append((i, "bb-two-answers", "%s %d: %d bytes follow a complete response" % (kind, k, r["extra"])))
+            if kind == "cl_close_twice":
+                # Connection is hop-by-hop: the backend closing its connection after a complete,
+                # length-delimited response must not end the client's keep-alive connection
+                cl = [classify_obs(r) for r in rs]
+                if len(rs) < 2 or cl != ["relay", "relay"] or rs[0]["eof"] or any(r["body"] != 20 for r in rs):
+                    bad.append((i, "bb-keepalive", "cl_close_twice: observed %s eof=%s (client connection must stay open and serve a second request)" % (cl, [r["eof"] for r in rs])))
+                continue
             if kind == "keepalive_close":
                 cl = [classify_obs(r) for r in rs]
                 if cl[0] != "relay" or (len(cl) > 1 and cl[1] not in ("relay", "default 502", "default 503")) or len(cl) < 2:
